@@ -6,7 +6,7 @@ use crate::verif_spec::src::Src;
 
 /// cel chunk header; linked and unknown cel types. The cel type is pinned per run (types 0/2/3 lead
 /// into pixel payload readers / zlib and are covered by k_cel_raw_* and Engine X).
-fn check_cel_chunk_small(data: &[u8], pf: PixelFormat) -> bool {
+pub(crate) fn check_cel_chunk_small(data: &[u8], pf: PixelFormat) -> bool {
     let got = parse_chunk(data, pf);
     let decoded_ok = got.is_ok();
     match fmt::cel_header(data) {
